@@ -308,8 +308,10 @@ def nsFinal : Namespace → Namespace
 
 def dotSplit (s : String) : List String := strSplit '.' s
 
-def dotToUnderscore (s : String) : String :=
-  String.ofList (s.toList.map (fun c => if c == '.' then '_' else c))
+/-- `x.replace(c, "_")` for every character `c` of the translator's normalisation table (today: `.`). -/
+def normChar (c : Char) : Char := if Generated.moduleNameNormalised.contains c then '_' else c
+
+def dotToUnderscore (s : String) : String := String.ofList (s.toList.map normChar)
 
 /-- `PurePath.with_suffix("").name`: the suffix starts at the last dot unless that dot is first or last. -/
 def fileStem (name : String) : String :=
